@@ -495,7 +495,8 @@ def _rebase(t, shift, vec_args, memo):
     return r
 
 
-def exhaustive_lanes(actual, expected, argspecs, names, lane_bits, env_ok=None, watch=None, max_bits=16, max_points=1 << 18):
+def exhaustive_lanes(actual, expected, argspecs, names, lane_bits, env_ok=None, watch=None, max_bits=16, max_points=1 << 18,
+                     nlanes=None):
     """Truth-table equivalence of two closed forms: when an output lane depends on at most max_bits input
     bits, both forms are evaluated on every assignment of those bits (within the documented domain).
     Complete for that lane; lanes that are the same term up to lane renaming are enumerated once.
@@ -503,7 +504,8 @@ def exhaustive_lanes(actual, expected, argspecs, names, lane_bits, env_ok=None, 
     if lane_bits is None or actual[1] % lane_bits:
         lane_bits = actual[1]
     n = actual[1] // lane_bits
-    vec_args = {k for k, (b, lb, d) in enumerate(argspecs) if lb and b // lb == n and n > 1}
+    nl = nlanes or n        # a k-mask result has more bits than the vector has lanes
+    vec_args = {k for k, (b, lb, d) in enumerate(argspecs) if lb and b // lb == nl and nl > 1}
     done = {}
     points = 0
     for i in range(n):
@@ -511,7 +513,7 @@ def exhaustive_lanes(actual, expected, argspecs, names, lane_bits, env_ok=None, 
         te = T.slice_(expected, i * lane_bits, lane_bits)
         if ta is te:
             continue
-        shift = {k: i * argspecs[k][1] for k in vec_args}
+        shift = {k: (i * argspecs[k][1] if i < nl else 0) for k in vec_args}
         key = (id(_rebase(ta, shift, vec_args, {})), id(_rebase(te, shift, vec_args, {}))) if i else (id(ta), id(te))
         if key in done:
             continue
@@ -551,8 +553,8 @@ def exhaustive_lanes(actual, expected, argspecs, names, lane_bits, env_ok=None, 
                 full = list(args)
                 for k in vec_args:
                     lb = argspecs[k][1]
-                    lanev = (args[k] >> (i * lb)) & ((1 << lb) - 1)
-                    full[k] = sum(lanev << (l * lb) for l in range(n))
+                    lanev = (args[k] >> (min(i, nl - 1) * lb)) & ((1 << lb) - 1)
+                    full[k] = sum(lanev << (l * lb) for l in range(nl))
                 r_ok = env_ok(full, names)
                 if r_ok is None:
                     return None, "domain predicate not applicable"
@@ -583,11 +585,64 @@ def exhaustive_lanes(actual, expected, argspecs, names, lane_bits, env_ok=None, 
     return "HOLDS", points
 
 
+def absint_lanes(actual, expected, argspecs, lane_bits, nlanes=None):
+    """Decide lane-wise one-operand functions by abstract interpretation under complete case splits
+    (lib/absint.py).  returns ('HOLDS', description) or (None, reason)"""
+    import absint
+    if lane_bits is None or actual[1] % lane_bits:
+        lane_bits = actual[1]
+    n = actual[1] // lane_bits
+    nl = nlanes or n
+    vec_args = {k for k, (b, lb, d) in enumerate(argspecs) if lb and b // lb == nl and nl > 1}
+    done = {}
+    desc = None
+    cases = 0
+    for i in range(n):
+        ta = T.slice_(actual, i * lane_bits, lane_bits)
+        te = T.slice_(expected, i * lane_bits, lane_bits)
+        if ta is te:
+            continue
+        shift = {k: (i * argspecs[k][1] if i < nl else 0) for k in vec_args}
+        key = (id(_rebase(ta, shift, vec_args, {})), id(_rebase(te, shift, vec_args, {}))) if i else (id(ta), id(te))
+        if key in done:
+            continue
+        used = {}
+        for t in (ta, te):
+            for lf in T.leaves(t, ("arg", "mem")):
+                if lf[0] == "mem":
+                    return None, "memory leaf"
+                used.setdefault(lf[2], [lf[3], lf[3] + lf[1]])
+                used[lf[2]][0] = min(used[lf[2]][0], lf[3])
+                used[lf[2]][1] = max(used[lf[2]][1], lf[3] + lf[1])
+        if len(used) != 1:
+            return None, "lane %d depends on %d arguments" % (i, len(used))
+        (k, (b0, b1)), = used.items()
+        bits, lb, dom = argspecs[k]
+        # (a restricted argument domain is ignored: agreement is shown on the whole lane range, a superset)
+        W = lb or bits
+        off = (b0 // W) * W
+        if b1 > off + W or W > 64:
+            return None, "lane %d reads more than one %d-bit lane of the argument" % (i, W)
+        name, info = absint.decide_unary(ta, te, k, bits, off, W)
+        if name is None:
+            return None, info
+        desc = name
+        cases += info
+        done[key] = True
+    if desc is None:
+        return None, "nothing to decide"
+    return "HOLDS", "abstract interpretation (known bits x interval) under a complete case split on the %s: %d cases, " \
+                    "each resolves both forms to the same constant" % (desc, cases)
+
+
 def _watch(summary):
     w = {}
     for r_, opn, flags, a, b, loc in getattr(summary, "flagged", ()):
         w.setdefault(id(r_), []).append((opn, flags, a, b, loc))
     return w
+
+
+MASK_LANES = [None]     # (lane_bits, nlanes) of a mask-typed result, set by the judge (truth-table lane structure)
 
 
 def compare(actual, expected, summary, argspecs, names, lane_bits, pure=True, env_ok=None):
@@ -649,11 +704,15 @@ def _compare(actual, expected, summary, argspecs, names, lane_bits, pure=True, e
     if actual[1] != expected[1]:
         return UNDECIDED, "width mismatch %d vs %d" % (actual[1], expected[1]), None
     if interpreted(actual) and interpreted(expected):
-        w = find_witness(actual, expected, argspecs, names, lane_bits, env_ok=env_ok, watch=_watch(summary))
-        if w is not None:
-            return REFUTED, T.show(actual, 5, names), w
+        # the truth table, when the lanes are small enough for it, is complete: run it first so that the
+        # (shared, deterministic) work budget cannot be used up by the heuristic search
+        ex = info = None
         try:
-            ex, info = exhaustive_lanes(actual, expected, argspecs, names, lane_bits, env_ok=env_ok, watch=_watch(summary))
+            if lane_bits is None and MASK_LANES[0]:
+                ex, info = exhaustive_lanes(actual, expected, argspecs, names, MASK_LANES[0][0], env_ok=env_ok,
+                                            watch=_watch(summary), nlanes=MASK_LANES[0][1])
+            else:
+                ex, info = exhaustive_lanes(actual, expected, argspecs, names, lane_bits, env_ok=env_ok, watch=_watch(summary))
         except T.TooBig:
             ex, info = None, "budget"
         if ex == "HOLDS":
@@ -663,5 +722,21 @@ def _compare(actual, expected, summary, argspecs, names, lane_bits, pure=True, e
                 info, T.show(T.slice_(actual, 0, min(actual[1], lane_bits or actual[1])), 2, names)), None
         if ex == "REFUTED":
             return REFUTED, T.show(actual, 5, names), info
+        w = find_witness(actual, expected, argspecs, names, lane_bits, env_ok=env_ok, watch=_watch(summary))
+        if w is not None:
+            return REFUTED, T.show(actual, 5, names), w
+        if True:
+            # agreement on every input of the lane (a superset of any documented domain); overflow-flagged
+            # operations are searched separately by compare() once the value verdict is HOLDS
+            try:
+                ax, ainfo = absint_lanes(actual, expected, argspecs, lane_bits if lane_bits is not None or not MASK_LANES[0]
+                                         else MASK_LANES[0][0], nlanes=(MASK_LANES[0][1] if lane_bits is None and MASK_LANES[0] else None))
+            except T.TooBig:
+                ax, ainfo = None, "budget"
+            if ax == "HOLDS":
+                if pure and summary.accesses:
+                    return UNDECIDED, "value matches but the function touches memory", None
+                return HOLDS, ainfo + "; " + T.show(T.slice_(actual, 0, min(actual[1], lane_bits or actual[1])), 2, names), None
+            info = "%s; %s" % (info, ainfo)
         return UNDECIDED, "forms differ, no separating point found (%s): " % info + T.show(actual, 4, names), None
     return UNDECIDED, T.show(actual, 4, names), None
